@@ -3,6 +3,7 @@ package main
 import (
 	"fmt"
 	"go/ast"
+	"go/types"
 	"go/parser"
 	"go/token"
 	"os"
@@ -453,6 +454,17 @@ func c17(c *Ctx) {
 			}
 		})
 	}
+	nIdx, nProven := 0, 0
+	for f := range reach {
+		if relPkg(f) != armPkg {
+			continue
+		}
+		a, b := checkIndexSafety(p, r, "C17.R4", f)
+		nIdx += a
+		nProven += b
+	}
+	r.Stat("index_sites_on_decode_print_path", nIdx)
+	r.Stat("index_sites_proven", nProven)
 	r.Check(nPanic == 0 && nAssert == 0, "C17.R4", "no panic / unchecked assertion on the decode and print paths", armPkg, fmt.Sprintf("%d functions inspected", len(reach)), "see individual sites")
 	// ---- R5 consumers (arm64 configuration)
 	if k2, err := c.K2(); err == nil {
@@ -583,4 +595,111 @@ func c17ReachableFromDecode(ds *declSet, name string) bool {
 		return hit
 	}
 	return walk("Decode") || walk("decodeArg")
+}
+
+// checkIndexSafety proves every array/slice/string index in fn within bounds; unproven sites are reported.
+func checkIndexSafety(p *Prog, r *Report, rule string, fn *ssa.Function) (n, proven int) {
+	k := NewKeyer(fn)
+	eachInstr(fn, func(i ssa.Instruction) {
+		var base, idx ssa.Value
+		switch x := i.(type) {
+		case *ssa.IndexAddr:
+			base, idx = x.X, x.Index
+		case *ssa.Index:
+			base, idx = x.X, x.Index
+		case *ssa.Lookup:
+			if _, isStr := x.X.Type().Underlying().(*types.Basic); isStr {
+				base, idx = x.X, x.Index
+			}
+		}
+		if base == nil {
+			return
+		}
+		n++
+		// length of the indexed object
+		var lenConst int64 = -1
+		t := base.Type().Underlying()
+		if pt, ok := t.(*types.Pointer); ok {
+			t = pt.Elem().Underlying()
+		}
+		if at, ok := t.(*types.Array); ok {
+			lenConst = at.Len()
+		}
+		// a package-level slice assigned exactly once, in an initialiser, with a constant length
+		if ld, ok := base.(*ssa.UnOp); ok && lenConst < 0 {
+			if g, ok := ld.X.(*ssa.Global); ok {
+				nSt := 0
+				var l int64 = -1
+				for _, f2 := range p.Funcs {
+					eachInstr(f2, func(j ssa.Instruction) {
+						if st, ok := j.(*ssa.Store); ok && st.Addr == ssa.Value(g) {
+							nSt++
+							if sl, ok := st.Val.(*ssa.Slice); ok {
+								if a, ok := sl.X.(*ssa.Alloc); ok {
+									if at, ok := a.Type().(*types.Pointer).Elem().Underlying().(*types.Array); ok && isPkgInit(f2) {
+										l = at.Len()
+									}
+								}
+							}
+							if ms, ok := st.Val.(*ssa.MakeSlice); ok && isPkgInit(f2) {
+								if cv, ok := constInt(ms.Len); ok {
+									l = cv
+								}
+							}
+						}
+					})
+				}
+				if nSt == 1 && l >= 0 {
+					lenConst = l
+				}
+			}
+		}
+		ok := false
+		m := NewDBM()
+		guardsToDBM(m, k, i.Block())
+		it := k.TermOf(idx)
+		if nonNeg(stripConstAdd(idx), map[ssa.Value]bool{}) {
+			bt := k.TermOf(stripConstAdd(idx))
+			m.AddLE(Term{"", -bt.K}, Term{bt.Var, 0})
+		}
+		if nonNeg(idx, map[ssa.Value]bool{}) {
+			m.AddLE(Term{"", 0}, it)
+		}
+		// masked index: v & mask
+		if bo, isB := resolveLocal(idx).(*ssa.BinOp); isB && bo.Op == token.AND {
+			if mk, isC := constInt(bo.Y); isC && mk >= 0 {
+				m.AddLE(it, Term{"", mk})
+				m.AddLE(Term{"", 0}, it)
+			}
+		}
+		// unsigned shift right of a w-bit value: v >> s has at most w-s bits
+		if bo, isB := resolveLocal(idx).(*ssa.BinOp); isB && bo.Op == token.REM {
+			if mk, isC := constInt(bo.Y); isC && mk > 0 && nonNeg(bo.X, map[ssa.Value]bool{}) {
+				m.AddLE(it, Term{"", mk - 1})
+				m.AddLE(Term{"", 0}, it)
+			}
+		}
+		if lenConst >= 0 {
+			ok = m.EntailsLE(Term{"", 0}, it) && m.EntailsLE(it, Term{"", lenConst - 1})
+		} else {
+			lt := Term{"len(" + k.Key(base) + ")", 0}
+			ok = m.EntailsLE(Term{"", 0}, it) && m.EntailsLE(Term{it.Var, it.K + 1}, lt)
+		}
+		if ok {
+			proven++
+			return
+		}
+		r.Bad(rule, fmt.Sprintf("index in %s (%s[%s])", shortName(fn), typeShort(base.Type()), termShape(it)), p.Pos(posOf(i)),
+			"an index on the decode/print path is not proven within bounds by the dominating conditions: some instruction word makes decoding or printing panic with 'index out of range'")
+	})
+	return
+}
+
+func typeShort(t types.Type) string {
+	s := t.String()
+	s = strings.ReplaceAll(s, Mod+"/", "")
+	if len(s) > 40 {
+		s = s[:40]
+	}
+	return s
 }
